@@ -174,12 +174,26 @@ pub fn eval_c18(line: &str) -> String {
                 Some((j, _)) => j,
                 None => return "BADCASE".into(),
             };
+            let j2 = j.clone();
             let v = match std::panic::catch_unwind(move || Value::from_serde_json(j)) {
                 Ok(v) => v,
                 Err(_) => return "PANIC".into(),
             };
             let vs = value_str(&v);
+            // the From / Into impls are the same conversions
+            let via_from = guarded(move || {
+                let w: Value = j2.into();
+                value_str(&w)
+            });
+            let v2 = v.clone();
             let back = guarded(move || j_str(&v.into_serde_json()));
+            let back2 = guarded(move || {
+                let j: serde_json::Value = v2.into();
+                j_str(&j)
+            });
+            if via_from != vs || back2 != back {
+                return format!("FROM-IMPLS-DISAGREE v={vs}/{via_from} back={back}/{back2}");
+            }
             format!("v={vs} back={back}")
         }
         "is" => {
@@ -187,12 +201,22 @@ pub fn eval_c18(line: &str) -> String {
                 Some(v) => v,
                 None => return "BADCASE".into(),
             };
+            let v2 = v.clone();
             let j = match std::panic::catch_unwind(move || v.into_serde_json()) {
                 Ok(j) => j,
                 Err(_) => return "PANIC".into(),
             };
             let js = j_str(&j);
+            let via_into = guarded(move || {
+                let j: serde_json::Value = v2.into();
+                j_str(&j)
+            });
+            let j2 = j.clone();
             let back = guarded(move || value_str(&Value::from_serde_json(j)));
+            let back2 = guarded(move || value_str(&Value::from(j2)));
+            if via_into != js || back2 != back {
+                return format!("FROM-IMPLS-DISAGREE j={js}/{via_into} v={back}/{back2}");
+            }
             format!("j={js} v={back}")
         }
         _ => "BADCASE".into(),
